@@ -1,6 +1,7 @@
 package c19
 
 import (
+	"fmt"
 	"testing"
 	"time"
 
@@ -30,7 +31,7 @@ func failAt(d time.Duration) outcome { return outcome{Kind: kFail, Lat: int64(d)
 
 var recFixed = ev.New("C19", "probe-regressions",
 	"fixed histories: three-way tie (all policies), quick failure vs slow success, hang vs success, eviction of round 1 at round 33 (latency, min-max) and at round 65 (availability), "+
-		"a success overwritten by a failure one lap later; same runner and reference model as probe-policies. Non-trivial: all; distinct = case name")
+		"a success overwritten by a failure one lap later, groups of 13/16/20/24 clients whose best figure is shared by 2..12 non-adjacent members with everybody else (incl. position 0) worse, 20 identical clients; same runner and reference model as probe-policies. Non-trivial: all; distinct = case name")
 
 func TestProbeRegressions(t *testing.T) {
 	const T = time.Second
@@ -92,6 +93,51 @@ func TestProbeRegressions(t *testing.T) {
 			h = append(h, []outcome{c0, c1})
 		}
 		cases = append(cases, tc{"overwrite-after-lap/availability", fixedPlan(polAvailability, T, h), map[int]int{1: 0, 64: 0, 65: 1, 70: 1}})
+	}
+	// groups of more than 12 clients: the best figure is shared by members that are not neighbours in the
+	// configuration, everybody else (including position 0) is worse: the first of the tied members wins
+	for _, pol := range []string{polAvailability, polLatency, polMinMax} {
+		for _, g := range []struct {
+			n    int
+			team []int
+		}{{13, []int{1, 12}}, {13, []int{5, 7, 9}}, {16, []int{3, 8, 15}}, {20, []int{2, 10, 11, 19}}, {24, []int{6, 13, 23}}, {24, []int{1, 3, 5, 7, 9, 11, 13, 15, 17, 19, 21, 23}}} {
+			inTeam := map[int]bool{}
+			for _, pos := range g.team {
+				inTeam[pos] = true
+			}
+			var h [][]outcome
+			for r := 0; r < 3; r++ {
+				row := make([]outcome, g.n)
+				for i := range row {
+					switch {
+					case inTeam[i]:
+						row[i] = okAt(time.Millisecond)
+					case i%3 == 0:
+						row[i] = failAt(0)
+					default:
+						// a worse figure under every policy: one failure, then slower successes
+						if r == 0 {
+							row[i] = failAt(time.Millisecond)
+						} else {
+							row[i] = okAt(T / 2)
+						}
+					}
+				}
+				h = append(h, row)
+			}
+			want := g.team[0]
+			cases = append(cases, tc{fmt.Sprintf("large-tie/%s/n=%d/first=%d/%d-way", pol, g.n, want, len(g.team)), fixedPlan(pol, T, h), map[int]int{1: want, 2: want, 3: want}})
+		}
+		// 20 identical clients: position 0
+		var h [][]outcome
+		for r := 0; r < 2; r++ {
+			row := make([]outcome, 20)
+			for i := range row {
+				row[i] = okAt(time.Millisecond)
+			}
+			h = append(h, row)
+		}
+		cases = append(cases, tc{"large-all-equal/" + pol, fixedPlan(pol, T, h), map[int]int{1: 0, 2: 0}})
 	}
 	for _, c := range cases {
 		for r, want := range c.want {
